@@ -381,9 +381,14 @@ static void caseC02(uint64_t idx, vh::Rng& g)
 	else gen::genPair(g, 5, 9, al, a, b, kind);
 	CaseAlphabet ca(al); Aut A = mkExpl(a, ca), B = mkExpl(b, ca); maybeDerive(g, A, a, ca, kind); maybeDerive(g, B, b, ca, kind);
 	R->desc(caseText(al, a, &b)); R->count("gen:" + kind);
+	int rounds = g.chance(1, 5) ? 2 : 1;   // a fifth of the cases: the same operand objects again after one was modified in place
+	for (int round = 0; round < rounds; ++round)
+	{
+	std::string C02 = round ? "C02/after-in-place-mutation" : "C02";
+	if (round) { if (g.chance(1, 2)) mutateInPlace(g, al, A, a, ca); else mutateInPlace(g, al, B, b, ca); R->desc(caseText(al, a, &b) + "(an operand was modified in place)"); R->count("after-in-place-mutation"); R->extraEvaluation(); }
 	int ea = rm::refEmpty(a, al), eb = rm::refEmpty(b, al);
 	bool nontriv = (ea == 0 && eb == 0);
-	auto opnd = [&](const char* op) { if (readExpl(A, &ca) != a || readExpl(B, &ca) != b) R->violation(std::string("C02/") + op + "/operand-changed", ""); };
+	auto opnd = [&](const char* op) { if (readExpl(A, &ca) != a || readExpl(B, &ca) != b) R->violation(C02 + "/" + op + "/operand-changed", ""); };
 	try
 	{
 		{	// Union with the various map arguments
@@ -396,7 +401,7 @@ static void caseC02(uint64_t idx, vh::Rng& g)
 			Aut u = (mode == 0) ? Aut::Union(A, B) : Aut::Union(A, B, &ma, &mb);
 			RTA ru = readExpl(u, &ca);
 			int c = rm::checkBin(a, b, ru, al, true);
-			if (c == 0) R->violation("C02/union/language", "L(R) != L(A) ∪ L(B)"); else if (c < 0) R->inconclusive("rm-cap");
+			if (c == 0) R->violation(C02 + "/union/language", "L(R) != L(A) ∪ L(B)"); else if (c < 0) R->inconclusive("rm-cap");
 			if (mode != 0) checkUnionMaps("union", a, b, ru, ma, mb, preA, preB);
 			if (nontriv && !ru.rules.empty()) { R->nontrivial(caseHash(al, a, &b)); if (R->wantSample()) R->sample(kind + "\n" + caseText(al, a, &b)); }
 			opnd("union");
@@ -409,10 +414,10 @@ static void caseC02(uint64_t idx, vh::Rng& g)
 				RTA b2 = rm::mapStates(b, m); Aut B2 = mkExpl(b2, ca);
 				R->phase("UnionDisjointStates");
 				Aut u = Aut::UnionDisjointStates(A, B2); RTA ru = readExpl(u, &ca);
-				if (ru != gen::unionRM(a, b2)) R->violation("C02/uniondisj/content", "result is not the plain union of rules and final states");
+				if (ru != gen::unionRM(a, b2)) R->violation(C02 + "/uniondisj/content", "result is not the plain union of rules and final states");
 				int c = rm::checkBin(a, b2, ru, al, true);
-				if (c == 0) R->violation("C02/uniondisj/language", "L(R) != L(A) ∪ L(B)");
-				if (readExpl(A, &ca) != a || readExpl(B2, &ca) != b2) R->violation("C02/uniondisj/operand-changed", "");
+				if (c == 0) R->violation(C02 + "/uniondisj/language", "L(R) != L(A) ∪ L(B)");
+				if (readExpl(A, &ca) != a || readExpl(B2, &ca) != b2) R->violation(C02 + "/uniondisj/operand-changed", "");
 			}
 		}
 		{
@@ -420,7 +425,7 @@ static void caseC02(uint64_t idx, vh::Rng& g)
 			R->phase("Intersection");
 			Aut i1 = withMap ? Aut::Intersection(A, B, &pm) : Aut::Intersection(A, B); RTA ri = readExpl(i1, &ca);
 			int c = rm::checkBin(a, b, ri, al, false);
-			if (c == 0) R->violation("C02/isect/language", "L(R) != L(A) ∩ L(B)");
+			if (c == 0) R->violation(C02 + "/isect/language", "L(R) != L(A) ∩ L(B)");
 			if (withMap) checkProductMap("isect", a, b, ri, pm);
 			if (c == 1 && rm::refEmpty(ri, al) == 0) R->count("nonempty-intersection");
 			opnd("isect");
@@ -430,12 +435,13 @@ static void caseC02(uint64_t idx, vh::Rng& g)
 			R->phase("IntersectionBU");
 			Aut i2 = withMap ? Aut::IntersectionBU(A, B, &pm) : Aut::IntersectionBU(A, B); RTA rj = readExpl(i2, &ca);
 			int c = rm::checkBin(a, b, rj, al, false);
-			if (c == 0) R->violation("C02/isectBU/language", "L(R) != L(A) ∩ L(B)");
+			if (c == 0) R->violation(C02 + "/isectBU/language", "L(R) != L(A) ∩ L(B)");
 			if (withMap) checkProductMap("isectBU", a, b, rj, pm);
 			opnd("isectBU");
 		}
 	}
-	catch (std::exception& ex) { R->violation("C02/exception", ex.what()); }
+	catch (std::exception& ex) { R->violation(C02 + "/exception", ex.what()); return; }
+	}
 }
 
 // ======================================================================= C14
